@@ -38,7 +38,7 @@ func writeTree(dir string, files map[string]string) error {
 	return nil
 }
 
-func (ck *checker) familyCLI() {
+func (ck *checker) familyCLI(maxN int) {
 	r := ck.r
 	scratch, err := os.MkdirTemp("", "verif-c10-")
 	if err != nil {
@@ -49,12 +49,12 @@ func (ck *checker) familyCLI() {
 	var cc cliCounters
 	var specs []Spec
 	cliKinds := []Kind{KLocal, KNamed, KBoth}
-	for n := 1; n <= 3; n++ {
+	for n := 1; n <= maxN; n++ {
 		for _, eg := range enum.Digraphs(n, false) {
 			g := fromEnum(eg)
 			vectors := allKinds(n, cliKinds)
 			if n == 3 && r.Quick() {
-				vectors = [][]Kind{{KLocal, KLocal, KLocal}, {KNamed, KNamed, KNamed}, {KLocal, KNamed, KBoth}, {KBoth, KLocal, KNamed}}
+				vectors = [][]Kind{{KLocal, KLocal, KLocal}, {KNamed, KNamed, KNamed}, {KLocal, KNamed, KBoth}}
 			}
 			for _, ks := range vectors {
 				for _, v2 := range []bool{false, true} {
@@ -67,6 +67,9 @@ func (ck *checker) familyCLI() {
 			}
 			for _, v2 := range []bool{false, true} {
 				for _, k := range []Kind{KLocal, KNamed} {
+					if n == 3 && k == KLocal {
+						continue
+					}
 					ks := make([]Kind, n)
 					for i := range ks {
 						ks[i] = k
@@ -90,6 +93,9 @@ func (ck *checker) familyCLI() {
 	r.Set("cli_specs", len(specs))
 	ctx := context.Background()
 	r.ParallelFor(len(specs), 0, func(idx int) {
+		if ck.done() {
+			return
+		}
 		s := specs[idx]
 		b, err := build(ctx, s)
 		if err != nil {
@@ -120,12 +126,8 @@ func (ck *checker) familyCLI() {
 	r.Set("cli_duplicate_demands", cc.dupDemands.Load())
 	r.Set("cli_missing_import_demands", cc.missDemands.Load())
 	r.Set("cli_exit_100_observed", cc.exit100.Load())
-	for name, v := range map[string]int64{"cli dep graph": cc.depGraphExact.Load(), "cli dep graph cycle": cc.depGraphCycle.Load(),
-		"cli ls-files vs build": cc.lsVsBuild.Load(), "cli duplicate": cc.dupDemands.Load(), "cli missing import exit 100": cc.exit100.Load()} {
-		if v == 0 && !r.Expired() {
-			r.Incomplete("clause never exercised: " + name)
-		}
-	}
+	neverExercised(r, map[string]int64{"cli dep graph": cc.depGraphExact.Load(), "cli dep graph cycle": cc.depGraphCycle.Load(),
+		"cli ls-files vs build": cc.lsVsBuild.Load(), "cli duplicate": cc.dupDemands.Load(), "cli missing import exit 100": cc.exit100.Load()})
 }
 
 // cliArgs maps a target to the CLI input and flags.
@@ -137,6 +139,8 @@ func cliArgs(s Spec, dir string, t Target) (input string, flags []string) {
 		return filepath.Join(dir, filepath.FromSlash(t.filePath(s))), nil
 	case "path":
 		return dir, []string{"--path", filepath.Join(dir, filepath.FromSlash(t.filePath(s)))}
+	case "pathdir":
+		return dir, []string{"--path", filepath.Join(dir, filepath.FromSlash(t.subDirPath(s)))}
 	}
 	return dir, nil
 }
@@ -202,7 +206,9 @@ func (ck *checker) checkCLI(ctx context.Context, cc *cliCounters, b *Built, dir 
 	}
 
 	// ---- dep graph (no --path flag on this command)
-	if t.Kind != "path" {
+	if anyCycle && ck.cycleErrorBroken.Load() {
+		ck.r.Incomplete("`buf dep graph` not run on cyclic closures after ModuleDeps missed a cycle (it would not terminate)")
+	} else if t.Kind != "path" && t.Kind != "pathdir" {
 		res := runCLI("dep", "graph", input)
 		switch {
 		case plant:
